@@ -817,7 +817,7 @@ theorem findL_miss (root : Val) (rl : Bool) (sp : Pos) {toks : List Str} {v : Va
     cases c with
     | dict dc kvs =>
       rw [findL_idx_step_dict f root sp rl q found tok e i rest hm.ne_nil cls xs n dc kvs hq hk hn hx]
-      exact find_miss_sp root rl (q ++ [.idx n]) hm f (q ++ [.idx n]) _ true hq' hf'
+      exact find_miss_sp root rl sp hm f (q ++ [.idx n]) _ true hq' hf'
     | list lc ys =>
       rw [findL_idx_step_list f root sp rl q found tok e i rest hm.ne_nil cls xs n lc ys hq hk hn hx]
       exact ih f (q ++ [.idx n]) _ ⟨lc, ys, rfl⟩ hq' hf'
